@@ -370,3 +370,70 @@ func init() {
 		}
 	})
 }
+
+// ------------------------------------------------------------------ C18.R9 .. R11 (round-4 seeds)
+// R9: the "last changed" heights a state carries are pointers the state store follows: save() writes a full
+// validator / parameter record only at the height they name and pointer records elsewhere. A freshly built
+// state must therefore name heights at which a full record is (going to be) written:
+//   - the genesis state: both pointers are the chain's initial height (where save() writes the first full
+//     records) — with any other value every height of a chain with initial_height > 1 resolves to nothing;
+//   - the state built by state sync: LastHeightValidatorsChanged is the height of the very light block whose
+//     validator set becomes NextValidators (Bootstrap stores that set in full at that height), and
+//     LastHeightConsensusParamsChanged is the height whose parameters were fetched.
+func init() {
+	register("C18", "R9", "K5", "freshly built states (genesis, state sync) name, as last-changed heights, heights at which the full record is written", 5, func(c *Ctx) {
+		w := c.W
+		if f := c.fn("state", "MakeGenesisState"); f != nil {
+			fk := funcKey(f)
+			for _, field := range []string{"LastHeightValidatorsChanged", "LastHeightConsensusParamsChanged", "InitialHeight"} {
+				n := 0
+				for _, fs := range w.fieldStoresIn(f, "state", "State", field) {
+					n++
+					got := w.expr(fs.Store.Val)
+					c.Check(got == "genDoc.InitialHeight", fk+" :: "+field, w.ipos(fs.Store), "genDoc.InitialHeight", field+" = "+got+": on a chain with initial_height > 1 the records of all heights up to the first change point at a height that has no record")
+				}
+				c.Check(n == 1, fk+" :: sets "+field, w.pos(f.Pos()), "1 store", fmt.Sprintf("%d", n))
+			}
+		}
+		if f := c.fn("statesync", "lightClientStateProvider.State"); f != nil {
+			fk := funcKey(f)
+			val := func(field string) string {
+				var out []string
+				for _, fs := range w.fieldStoresIn(f, "state", "State", field) {
+					out = append(out, w.expr(fs.Store.Val))
+				}
+				return strings.Join(out, " | ")
+			}
+			nv, hv := val("NextValidators"), val("LastHeightValidatorsChanged")
+			m := regexp.MustCompile(`^(.*)\.ValidatorSet$`).FindStringSubmatch(nv)
+			c.Check(m != nil && hv == m[1]+".SignedHeader.Header.Height", fk+" :: last-changed height of the validators is the height of the block NextValidators come from", w.pos(f.Pos()), "NextValidators = B.ValidatorSet and LastHeightValidatorsChanged = B.Height for the same light block B", "NextValidators = "+nv+", LastHeightValidatorsChanged = "+hv+": the next save points the following heights at a record that holds another set")
+			hp := val("LastHeightConsensusParamsChanged")
+			asked := ""
+			for _, dc := range w.deepCallsMatching(f, 0, `\.ConsensusParams\(ctx, `) {
+				asked = dc.arg(1)
+			}
+			c.Check(asked != "" && (asked == "&"+hp || asked == hp), fk+" :: last-changed height of the parameters is the height they were fetched for", w.pos(f.Pos()), "ConsensusParams(ctx, &H) and LastHeightConsensusParamsChanged = H", "parameters fetched for "+asked+", LastHeightConsensusParamsChanged = "+hp)
+		}
+	})
+
+	// R10: "move the base before deleting a batch" has a reader side: whoever reads the base and then loads
+	// that height must do both under the store's lock, or a prune in between moves the base and deletes the
+	// height just read (LoadBaseMeta answers nil for a store that holds blocks all the time).
+	register("C18", "R10", "K6", "LoadBaseMeta reads the base and loads that height's meta inside one critical section of the store's mutex", 2, func(c *Ctx) {
+		w := c.W
+		f := c.fn("store", "BlockStore.LoadBaseMeta")
+		if f == nil {
+			return
+		}
+		fk := funcKey(f)
+		n := 0
+		for _, call := range w.callsTo(f, "store#BlockStore.LoadBlockMeta") {
+			n++
+			ok, why := w.holdsLock(f, call, regexp.MustCompile(`\.mtx$`), 0)
+			c.Check(ok, fk+" :: load of the base height under the store's mutex", w.ipos(call), "mtx held (read)", "not held: "+why+": a concurrent prune can move the base and delete this height between the read of the base and the load")
+			arg := w.expr(callArgs(call)[0])
+			c.Check(regexp.MustCompile(`^\w+\.base$`).MatchString(arg), fk+" :: the height loaded is the base field read in the same critical section", w.ipos(call), "bs.base", "loads "+arg+" (a copy taken outside the lock can be stale)")
+		}
+		c.Check(n == 1, fk+" :: load found", w.pos(f.Pos()), "1", fmt.Sprintf("%d", n))
+	})
+}
